@@ -112,15 +112,18 @@ theorem commit_keeps_live_meta_partial (a : Alloc) (st : TxAlloc) (a1 : Alloc) (
   rw [(fileCommitAlloc_some a st a1 st1 cs h).1] at hov ⊢
   exact commitState_keeps_meta a1 st1 _ id hov hid hnd hnm
 
-/-- COUNTEREXAMPLE (the missing piece of `commit_keeps_live_meta_partial`): limit lowered to 5,
-    data area ends at 10 with page 9 free, overflow area `[10, 12)` in use (pages 10, 11 are in
-    neither free list). The commit releases page 9 and sets BOTH end markers to 9: the meta end
-    marker now lies below the in-use meta pages 10 and 11. -/
+/-- the state that was a COUNTEREXAMPLE on the pinned tree (the missing piece of
+    `commit_keeps_live_meta_partial`): limit lowered to 5, data area ends at 10 with page 9 free,
+    overflow area `[10, 12)` in use (pages 10, 11 are in neither free list). The pinned code released
+    page 9 and set BOTH end markers to 9, below the in-use meta pages 10 and 11 (found first as this
+    `decide`-checked witness, then reproduced on the implementation: reopen failed / live pages read
+    other pages' contents). After the repair in /repo (alloc.go: the meta end marker only follows the
+    data end marker if it does not lie beyond the old end of the data area) the meta end marker stays 12. -/
 example :
     let a : Alloc := { maxPages := 5, data := { endMarker := 10, free := [9] }, mta := { endMarker := 12, free := [3] }, metaTotal := 5 }
     (fileCommitAlloc a (a.beginTx false 80) true).map
       (fun r => (r.1.mta.endMarker, unionIds r.2.1.data.freed r.1.data.free, unionIds r.2.1.mta.freed r.1.mta.free,
-                 r.2.2.dataEnd, r.2.2.metaEnd)) = some (12, [9], [], 9, 9) := by decide
+                 r.2.2.dataEnd, r.2.2.metaEnd)) = some (12, [9], [], 9, 12) := by decide
 
 /-- the hypotheses are satisfiable with a real shrink: limit 5, data area `[2, 10)`, pages 8, 9 free -/
 example :
